@@ -113,4 +113,14 @@ def newBoolean (op : BoolOp) (nodes : List QNode) : QNode :=
 
 end QNode
 
+/-- UTF-8 encoding of one scalar value -/
+def utf8Char (c : Char) : List Nat :=
+  let n := c.toNat
+  if n < 0x80 then [n]
+  else if n < 0x800 then [0xC0 + n / 64, 0x80 + n % 64]
+  else if n < 0x10000 then [0xE0 + n / 4096, 0x80 + n / 64 % 64, 0x80 + n % 64]
+  else [0xF0 + n / 262144, 0x80 + n / 4096 % 64, 0x80 + n / 64 % 64, 0x80 + n % 64]
+
+def utf8 (s : Str) : List Nat := s.flatMap utf8Char
+
 end Search
